@@ -85,7 +85,7 @@ pub mod tm12 {
         pub fn get_mut(&mut self, key: &K) -> (r: Option<&mut V>)
             ensures match r {
                 Some(v) => old(self)@.contains_key(*key) && *v == old(self)@[*key] && final(self)@ == old(self)@.insert(*key, *final(v)),
-                None => !old(self)@.contains_key(*key) && final(self)@ == old(self)@,
+                None => !old(self)@.contains_key(*key) && *final(self) == *old(self),
             }
         { unimplemented!() }
 
@@ -175,7 +175,7 @@ pub mod tm12 {
         pub fn get_mut(&mut self, key: &K) -> (r: Option<&mut V>)
             ensures match r {
                 Some(v) => old(self)@.contains_key(*key) && *v == old(self)@[*key] && final(self)@ == old(self)@.insert(*key, *final(v)),
-                None => !old(self)@.contains_key(*key) && final(self)@ == old(self)@,
+                None => !old(self)@.contains_key(*key) && *final(self) == *old(self),
             }
         { unimplemented!() }
 
@@ -337,4 +337,102 @@ pub mod tm12 {
             assert(m.contains_key(s[j].0));
         }
     }
+
+    // ============================================================== BTreeMap::values() ==
+    impl<K, V> BTreeMap<K, V> {
+        /// the bindings in iteration order (std: ascending by key).  Only "every binding exactly once"
+        /// (ax_ord_seq) is exposed; the iteration order is a function of the map value.
+        pub uninterp spec fn ord_seq(&self) -> Seq<(K, V)>;
+        /// std: "Gets an iterator over the values of the map, in order by key"
+        #[verifier::external_body]
+        pub fn values(&self) -> (r: Values<'_, K, V>)
+            ensures r.rest().len() == self.ord_seq().len(),
+                    forall|i: int| 0 <= i < r.rest().len() ==> *(#[trigger] r.rest()[i]) == self.ord_seq()[i].1,
+        { unimplemented!() }
+    }
+    pub broadcast axiom fn ax_ord_seq<K, V>(b: BTreeMap<K, V>)
+        ensures enumerates(#[trigger] b.ord_seq(), b@);
+    #[verifier::external_body]
+    #[verifier::reject_recursive_types(K)]
+    #[verifier::reject_recursive_types(V)]
+    pub struct Values<'a, K, V> { k: core::marker::PhantomData<&'a (K, V)> }
+    impl<'a, K, V> Values<'a, K, V> {
+        pub uninterp spec fn rest(&self) -> Seq<&'a V>;
+    }
+    impl<'a, K, V> Iterator for Values<'a, K, V> {
+        type Item = &'a V;
+        #[verifier::external_body]
+        fn next(&mut self) -> (r: Option<&'a V>) { unimplemented!() }
+    }
+    impl<'a, K, V> vstd::std_specs::iter::IteratorSpecImpl for Values<'a, K, V> {
+        open spec fn obeys_prophetic_iter_laws(&self) -> bool { true }
+        open spec fn remaining(&self) -> Seq<&'a V> { self.rest() }
+        open spec fn will_return_none(&self) -> bool { true }
+        open spec fn peek(&self, index: int) -> Option<&'a V> { if 0 <= index < self.rest().len() { Some(self.rest()[index]) } else { None } }
+        open spec fn decrease(&self) -> Option<nat> { Some(self.rest().len()) }
+    }
+
+    // ============================================ BTreeMap::into_values().filter_map(f).collect() ==
+    // Iterator adapters are outside Verus: `filter_map` and `collect` are modelled as INHERENT methods of the shim
+    // iterator types (an inherent method shadows the `Iterator` adapter of the same name, so the real text
+    // `m.into_values().filter_map(f).collect()` resolves to them).
+    impl<K, V> BTreeMap<K, V> {
+        /// std: "Creates a consuming iterator visiting all the values, in order by key"
+        #[verifier::external_body]
+        pub fn into_values(self) -> (r: IntoValues<V>)
+            ensures r.vals().len() == self.ord_seq().len(),
+                    forall|i: int| 0 <= i < r.vals().len() ==> #[trigger] r.vals()[i] == self.ord_seq()[i].1,
+        { unimplemented!() }
+    }
+    #[verifier::external_body]
+    #[verifier::reject_recursive_types(V)]
+    pub struct IntoValues<V> { k: core::marker::PhantomData<V> }
+    impl<V> IntoValues<V> {
+        pub uninterp spec fn vals(&self) -> Seq<V>;
+        /// `Iterator::filter_map(f)`: `f` is applied to each value, in order; `outs()[i]` is its answer for the
+        /// i-th value; the adapter yields the payloads of the `Some` answers (see `somes`)
+        #[verifier::external_body]
+        pub fn filter_map<B, F: FnMut(V) -> Option<B>>(self, f: F) -> (r: FilterMapped<B>)
+            requires forall|i: int| 0 <= i < self.vals().len() ==> call_requires(f, (#[trigger] self.vals()[i],)),
+            ensures r.outs().len() == self.vals().len(),
+                    forall|i: int| 0 <= i < self.vals().len() ==> call_ensures(f, (self.vals()[i],), #[trigger] r.outs()[i]),
+        { unimplemented!() }
+    }
+    #[verifier::external_body]
+    #[verifier::reject_recursive_types(B)]
+    pub struct FilterMapped<B> { k: core::marker::PhantomData<B> }
+    impl<B> FilterMapped<B> {
+        pub uninterp spec fn outs(&self) -> Seq<Option<B>>;
+    }
+    impl<K2, V2> FilterMapped<(K2, V2)> {
+        /// `Iterator::collect()` into a map: the yielded pairs are inserted front to back (FromIterator of IndexMap:
+        /// a later pair with an equal key overwrites the value)
+        #[verifier::external_body]
+        pub fn collect<C: FromPairs<K2, V2>>(self) -> (r: C) ensures r.built_from(somes(self.outs())) { unimplemented!() }
+    }
+    /// the payloads of the `Some` entries, in order
+    pub open spec fn somes<B>(s: Seq<Option<B>>) -> Seq<B>
+        decreases s.len()
+    {
+        if s.len() == 0 { Seq::empty() } else {
+            match s.last() { Some(b) => somes(s.drop_last()).push(b), None => somes(s.drop_last()) }
+        }
+    }
+    /// the map built by inserting the pairs of `s` front to back
+    pub open spec fn seq_to_map<K, V>(s: Seq<(K, V)>) -> Map<K, V>
+        decreases s.len()
+    {
+        if s.len() == 0 { Map::empty() } else { seq_to_map(s.drop_last()).insert(s.last().0, s.last().1) }
+    }
+    pub trait FromPairs<K, V>: Sized {
+        spec fn built_from(&self, s: Seq<(K, V)>) -> bool;
+    }
+    impl<K, V> FromPairs<K, V> for IndexMap<K, V> {
+        open spec fn built_from(&self, s: Seq<(K, V)>) -> bool { self@ == seq_to_map(s) }
+    }
+    impl<K, V> IndexMap<K, V> {
+        #[verifier::external_body]
+        pub fn is_empty(&self) -> (r: bool) ensures r <==> (forall|k: K| !self@.contains_key(k)) { unimplemented!() }
+    }
+    pub broadcast group group_tm12 { ax_ord_seq }
 }
